@@ -35,6 +35,7 @@ finding `fixed` in `known_findings/C11.json`.
   F20      pointUnreadable          crtf_roundtrip_refuted_F20
   F21      pixAsDeg                 crtf_roundtrip_refuted_F21
   F33      quotePairUnreadable      crtf_roundtrip_refuted_F33
+  F34      keepSourceAttrs          crtf_roundtrip_refuted_F34
   F31      dropLabelcolor           (none; the last `example` of §9 mentions it)
   F32      labeloffRepr             (none; list keys are validated, not proved)
 
@@ -685,7 +686,7 @@ theorem roundtrip_list (q : Quirks) (qn : String → String) (o : Opts) (rs : Li
 
 theorem toShape_inv {q : Quirks} {cs : String} {r : WReg} {s : WShape} (h : toShape q cs r = .ok s) :
     s = { coordsys := cs, kind := r.kind, sky := r.sky,
-          coord := flatten r.pts ++ r.sizes ++ r.angle.toList,
+          coord := flatten (srcPts q r) ++ r.sizes ++ r.angle.toList,
           mt := shapeMeta q r, incl := r.mt.get? .include } ∧
     r.kind ≠ .compound ∧ ¬ (r.sky && (isImage cs || (coordsysTable.lookup cs).isNone)) = true := by
   unfold toShape at h
@@ -1669,7 +1670,7 @@ longitudes wrapped into [0, 360)). -/
 theorem chain_geom (R R2 : ℚ → ℚ → Prop) (q : Quirks) (qn : String → String) (o : Opts) (g : String)
     (hR : ∀ x, R x (fmtDec o.prec x).val) (hR2 : ∀ w, R2 w (2 * (fmtDec o.prec (w / 2)).val))
     (r : WReg) (x : RReg) (h : Chain q qn o g r x)
-    (hA : arityOK r.kind r.pts r.sizes r.angle = true) :
+    (hA : arityOK r.kind r.pts r.sizes r.angle = true) (hsrc : srcPts q r = r.pts) :
     x.kind = r.kind ∧
     ∃ ptsS : List (Q × Q),
       GeomRel R R2 r.kind r.pts r.sizes r.angle
@@ -1678,7 +1679,7 @@ theorem chain_geom (R R2 : ℚ → ℚ → Prop) (q : Quirks) (qn : String → S
   obtain ⟨s, l, sh, h1, h2, h3, h4⟩ := h
   obtain ⟨hs, -, -⟩ := toShape_inv h1
   have s_kind : s.kind = r.kind := by rw [hs]
-  have s_coord : s.coord = flatten r.pts ++ r.sizes ++ r.angle.toList := by rw [hs]
+  have s_coord : s.coord = flatten r.pts ++ r.sizes ++ r.angle.toList := by rw [hs, hsrc]
   clear hs h1
   obtain ⟨items, body, hi, hb, hl, -⟩ := writeLine_inv h2
   have l_body : l.body = body := by rw [hl]
@@ -1751,14 +1752,15 @@ parameter lists of its class and a dictionary as metadata, the region read back 
 to it by `RT`. -/
 theorem chain_rt (q : Quirks) (qn : String → String) (o : Opts) (g : String) (r : WReg) (x : RReg)
     (h : Chain q qn o g r x)
-    (hA : arityOK r.kind r.pts r.sizes r.angle = true) (hn : (keys r.mt).Nodup) : RT q o r x := by
+    (hA : arityOK r.kind r.pts r.sizes r.angle = true) (hn : (keys r.mt).Nodup)
+    (hsrc : srcPts q r = r.pts) : RT q o r x := by
   have hG := geomW_of_chain _ _ q o r x
-    (chain_geom (Close o.prec) (Close2 o.prec) q qn o g (close_fmt o.prec) (close2_fmt_half o.prec) r x h hA).2
+    (chain_geom (Close o.prec) (Close2 o.prec) q qn o g (close_fmt o.prec) (close2_fmt_half o.prec) r x h hA hsrc).2
   obtain ⟨s, l, sh, h1, h2, h3, h4⟩ := h
   obtain ⟨hs, -, -⟩ := toShape_inv h1
   have s_cs : s.coordsys = o.coordsys := by rw [hs]
   have s_kind : s.kind = r.kind := by rw [hs]
-  have s_coord : s.coord = flatten r.pts ++ r.sizes ++ r.angle.toList := by rw [hs]
+  have s_coord : s.coord = flatten r.pts ++ r.sizes ++ r.angle.toList := by rw [hs, hsrc]
   have s_mt : s.mt = shapeMeta q r := by rw [hs]
   have s_incl : s.incl = r.mt.get? .include := by rw [hs]
   clear hs h1
@@ -1906,19 +1908,19 @@ stores them wrapped into [0, 360): `RelPtW`, `relPtW_close_mod360`), the same
 include/exclude sense, the same annotation type, the same label, the scalar CRTF metadata
 (as text), and for a text region the string the writer took for it. -/
 theorem crtf_roundtrip (q : Quirks) (qn : String → String) (o : Opts) (rs : List WReg)
-    (ls : List SrcLine) (gs : List RReg) (hw : ∀ r ∈ rs, WellFormed r)
+    (ls : List SrcLine) (gs : List RReg) (hw : ∀ r ∈ rs, WellFormed r ∧ srcPts q r = r.pts)
     (hs : serialize q o rs = .ok ls) (hp : parse q qn ls = .ok gs) :
     List.Forall₂ (RT q o) rs gs := by
   obtain ⟨g, -, hc⟩ := roundtrip_list q qn o rs ls gs hs hp
-  have : ∀ (l1 : List WReg) (l2 : List RReg), (∀ r ∈ l1, WellFormed r) →
+  have : ∀ (l1 : List WReg) (l2 : List RReg), (∀ r ∈ l1, WellFormed r ∧ srcPts q r = r.pts) →
       List.Forall₂ (Chain q qn o g) l1 l2 → List.Forall₂ (RT q o) l1 l2 := by
     intro l1 l2 hwf hch
     induction hch with
     | nil => exact List.Forall₂.nil
     | cons hab _ ih =>
       refine List.Forall₂.cons ?_ (ih fun r hr => hwf r (List.mem_cons_of_mem _ hr))
-      obtain ⟨h1, h2⟩ := hwf _ List.mem_cons_self
-      exact chain_rt q qn o g _ _ hab h1 h2
+      obtain ⟨⟨h1, h2⟩, h3⟩ := hwf _ List.mem_cons_self
+      exact chain_rt q qn o g _ _ hab h1 h2 h3
   exact this rs gs hw hc
 
 /-! ### the string of a text region (F7) -/
@@ -2405,12 +2407,14 @@ def annulusPrints (p : Nat) : List ℚ → Bool
 
 /-- a CRTF-representable region under admissible options, minus the input classes of the
 open findings (each conjunct from `F19` on names its finding):
+* F34: the coordinates astropy hands to the writer are those of the frame the CRTF name denotes
+  (`srcPts q r = r.pts`: no foreign equinox / obstime leaks into the target frame);
 * F19: every size, as printed with `fmt`, is not `0`, and an annulus keeps `inner < outer`;
 * F20: a point region has a (valid) `symbol`, unless the reader knows `point`;
 * F21: no pixel polygon / line while pixel coordinates are written as `deg`;
 * F33: no pair of lengths in `"` (radunit `arcsec`) while the reader's regex rejects it. -/
 def Good (q : Quirks) (o : Opts) (r : WReg) : Prop :=
-  WellFormed r ∧
+  (WellFormed r ∧ srcPts q r = r.pts) ∧
   r.sky = !(o.coordsys == "image") ∧
   listOK ((mergedMeta r).get? .labeloff) = true ∧ listOK ((mergedMeta r).get? .range) = true ∧
   listOK ((mergedMeta r).get? .corr) = true ∧
@@ -2434,7 +2438,7 @@ theorem arity_facts (k : Kind) (p : List (ℚ × ℚ)) (sz : List ℚ) (a : Opti
 theorem chain_exists (q : Quirks) (qn : String → String) (o : Opts) (g : String) (r : WReg)
     (ho : optsOK o) (hg : coordsysTable.lookup o.coordsys = some g) (h : Good q o r) :
     ∃ x, Chain q qn o g r x := by
-  obtain ⟨⟨hA, hn⟩, hsky, hl1, hl2, hl3, hlat, hpoly, hsz, hann, hsym, hf21, hf33⟩ := h
+  obtain ⟨⟨⟨hA, hn⟩, hsrc⟩, hsky, hl1, hl2, hl3, hlat, hpoly, hsz, hann, hsym, hf21, hf33⟩ := h
   have hF := optFacts_all _ ho
   simp only [optFacts, Bool.and_eq_true, beq_iff_eq, Bool.not_eq_true', Bool.or_eq_true, bne_iff_ne,
     ne_eq, Bool.and_eq_false_iff] at hF
@@ -2451,7 +2455,7 @@ theorem chain_exists (q : Quirks) (qn : String → String) (o : Opts) (g : Strin
     have : ¬ (r.sky && (isImage o.coordsys || (coordsysTable.lookup o.coordsys).isNone)) = true := by
       rw [hsky, hg, F3]
       by_cases hc : o.coordsys = "image" <;> simp [hc]
-    rw [if_neg this]
+    rw [if_neg this, hsrc]
   -- the writer's meta
   have wm_get : ∀ kk, kk ≠ .label → kk ≠ .text → writerValid q kk = true →
       (writerMeta q s).get? kk = (mergedMeta r).get? kk := by
@@ -2757,7 +2761,7 @@ theorem forall₂_grid_pts (p : Nat) {A B C : List (ℚ × ℚ)}
 /-- what was read from a written line is on the grid of the precision (ellipse axes: their
 halves, which is what the file stores); wrapping a longitude does not change that. -/
 theorem parsed_on_grid (q : Quirks) (qn : String → String) (o : Opts) (g : String) (r : WReg) (x : RReg)
-    (h : Chain q qn o g r x) (hA : arityOK r.kind r.pts r.sizes r.angle = true) :
+    (h : Chain q qn o g r x) (hA : arityOK r.kind r.pts r.sizes r.angle = true) (hsrc : srcPts q r = r.pts) :
     GeomRel (fun _ y => OnGrid o.prec y) (fun _ y => OnGrid o.prec (y / 2)) r.kind r.pts r.sizes r.angle
       (x.pts.map fun p => (p.1.v, p.2.v)) (x.sizes.map (·.v)) (x.angle.map (·.v)) := by
   obtain ⟨-, ptsS, ⟨g1, g2, g3⟩, hu, hp⟩ :=
@@ -2766,7 +2770,7 @@ theorem parsed_on_grid (q : Quirks) (qn : String → String) (o : Opts) (g : Str
       (fun w => by
         have : 2 * (fmtDec o.prec (w / 2)).val / 2 = (fmtDec o.prec (w / 2)).val := by ring
         show OnGrid o.prec (2 * (fmtDec o.prec (w / 2)).val / 2)
-        rw [this]; exact fmtDec_val_on_grid o.prec _) r x h hA
+        rw [this]; exact fmtDec_val_on_grid o.prec _) r x h hA hsrc
   refine ⟨?_, g2, g3⟩
   rw [hp]
   refine forall₂_grid_pts o.prec g1 (regionPts_lon _ _ ?_)
@@ -2776,7 +2780,7 @@ theorem parsed_on_grid (q : Quirks) (qn : String → String) (o : Opts) (g : Str
 
 /-- a region whose numbers are on the grid is denoted EXACTLY by the line written for it. -/
 theorem on_grid_exact (q : Quirks) (qn : String → String) (o : Opts) (g : String) (w : WReg) (x : RReg)
-    (h : Chain q qn o g w x) (hA : arityOK w.kind w.pts w.sizes w.angle = true) :
+    (h : Chain q qn o g w x) (hA : arityOK w.kind w.pts w.sizes w.angle = true) (hsrc : srcPts q w = w.pts) :
     x.kind = w.kind ∧
     ∃ ptsS : List (Q × Q),
       GeomRel (fun a y => OnGrid o.prec a → y = a) (fun a y => OnGrid o.prec (a / 2) → y = a)
@@ -2785,7 +2789,7 @@ theorem on_grid_exact (q : Quirks) (qn : String → String) (o : Opts) (g : Stri
       (∀ p ∈ ptsS, p.1.u = lonU q o) ∧ x.pts = regionPts x.frame ptsS :=
   chain_geom (fun a y => OnGrid o.prec a → y = a) (fun a y => OnGrid o.prec (a / 2) → y = a) q qn o g
     (fun a ⟨m, hm⟩ => fmtDec_grid o.prec a m hm)
-    (fun a ⟨m, hm⟩ => by rw [fmtDec_grid o.prec (a / 2) m hm]; ring) w x h hA
+    (fun a ⟨m, hm⟩ => by rw [fmtDec_grid o.prec (a / 2) m hm]; ring) w x h hA hsrc
 
 /-- re-reading what was already stored in a region object stores the same values again
 (wrapping is idempotent; pixel values are kept). -/
@@ -2926,11 +2930,11 @@ theorem arity_of_shape (k : Kind) (p p' : List (ℚ × ℚ)) (s s' : List ℚ) (
 
 theorem toW_inv {o : Opts} {x : RReg} {w : WReg} (h : toW o x = some w) :
     w.kind = x.kind ∧ w.pts = x.pts.map (fun p => (p.1.v, p.2.v)) ∧ w.sizes = x.sizes.map (·.v) ∧
-      w.angle = x.angle.map (·.v) ∧ w.mt = x.mt ∧ w.vis = x.vis := by
+      w.angle = x.angle.map (·.v) ∧ w.mt = x.mt ∧ w.vis = x.vis ∧ w.ptsKept = w.pts := by
   unfold toW at h
   simp only at h
   split_ifs at h <;>
-    (simp only [Option.some.injEq] at h; subst h; exact ⟨rfl, rfl, rfl, rfl, rfl, rfl⟩)
+    (simp only [Option.some.injEq] at h; subst h; exact ⟨rfl, rfl, rfl, rfl, rfl, rfl, rfl⟩)
 
 /-- `crtf_fixed_point` (geometry and class): serialise a region, parse it (`x`), serialise
 what was parsed (`w = toW x`: same frame and units, so astropy's conversions are
@@ -2940,14 +2944,16 @@ theorem crtf_fixed_point (q : Quirks) (qn : String → String) (o : Opts) (g : S
     (r : WReg) (x : RReg) (w : WReg) (x' : RReg)
     (ho : optsOK o) (hg : coordsysTable.lookup o.coordsys = some g)
     (h1 : Chain q qn o g r x) (hA : arityOK r.kind r.pts r.sizes r.angle = true)
+    (hsrc : srcPts q r = r.pts)
     (hw : toW o x = some w) (h2 : Chain q qn o g w x') :
     x'.kind = x.kind ∧ x'.frame = x.frame ∧
     x'.pts.map (fun p => (p.1.v, p.2.v)) = x.pts.map (fun p => (p.1.v, p.2.v)) ∧
     x'.sizes.map (·.v) = x.sizes.map (·.v) ∧ x'.angle.map (·.v) = x.angle.map (·.v) := by
-  obtain ⟨w_kind, w_pts, w_sizes, w_angle, -, -⟩ := toW_inv hw
+  obtain ⟨w_kind, w_pts, w_sizes, w_angle, -, -, w_kept⟩ := toW_inv hw
+  have hsrcw : srcPts q w = w.pts := by unfold srcPts; split_ifs <;> [exact w_kept; rfl]
   obtain ⟨xk, ptsS1, -, hu1, hp1⟩ := chain_geom (Close o.prec) (Close2 o.prec) q qn o g (close_fmt o.prec)
-    (close2_fmt_half o.prec) r x h1 hA
-  have gg := parsed_on_grid q qn o g r x h1 hA
+    (close2_fmt_half o.prec) r x h1 hA hsrc
+  have gg := parsed_on_grid q qn o g r x h1 hA hsrc
   -- the parsed region has the parameter lists of its class
   have hAw : arityOK w.kind w.pts w.sizes w.angle = true := by
     rw [w_kind, xk, w_pts, w_sizes, w_angle]
@@ -2956,7 +2962,7 @@ theorem crtf_fixed_point (q : Quirks) (qn : String → String) (o : Opts) (g : S
       split_ifs at this <;> exact this.length_eq
     · have := gg.2.2
       cases hra : r.angle <;> cases hxa : x.angle.map (·.v) <;> simp_all
-  obtain ⟨xk', ptsS2, ge, hu2, hp2⟩ := on_grid_exact q qn o g w x' h2 hAw
+  obtain ⟨xk', ptsS2, ge, hu2, hp2⟩ := on_grid_exact q qn o g w x' h2 hAw hsrcw
   rw [w_kind, w_pts, w_sizes, w_angle] at ge
   rw [xk] at ge
   have f1 : x.frame = o.coordsys := chain_frame q qn o g r x h1 ho hg
@@ -3065,6 +3071,25 @@ def skyEllipse : WReg :=
 -- crtf_roundtrip_refuted_F21: removed, F21 fixed in /repo by 3bd1349
 
 -- crtf_roundtrip_refuted_F33: removed, F33 fixed in /repo by 10da16e
+
+/-- the coordinates read back, as a value of the executable model. -/
+def rtPoints (q : Quirks) (o : Opts) (rs : List WReg) : Option (List (List (ℚ × ℚ))) :=
+  match serialize q o rs with
+  | .ok ls => (match parse q id ls with
+    | .ok gs => some (gs.map fun x => x.pts.map fun p => (p.1.v, p.2.v))
+    | .error _ => none)
+  | .error _ => none
+
+/-- `CircleSkyRegion(SkyCoord(10, 20, frame=FK5(equinox='J1975')), 1 deg)` with `coordsys='fk5'`: in
+J2000 the centre is (10.329231, 20.137001) (`pts`); what `transform_to(FK5)` hands to the writer
+keeps equinox J1975, i.e. (10, 20) (`ptsKept`). -/
+def foreignEquinox : WReg :=
+  { kind := .circle, sky := true, pts := [(10329231 / 1000000, 20137001 / 1000000)], sizes := [1], angle := none,
+    text := "", mt := [], vis := [], ptsKept := [(10, 20)] }
+
+-- crtf_roundtrip_refuted_F34: removed, F34 fixed in /repo by 120394c
+
+example : Good { Quirks.current with keepSourceAttrs := false } skyOpts foreignEquinox := by decide +kernel
 
 /-- the witnesses are representable, and `Good` (so covered by `crtf_roundtrip_partial`) as soon
 as their own defect is repaired; an ordinary region is `Good` under the current code. -/
